@@ -175,20 +175,35 @@ fn codec_round_trip(size: u32, out: &mut Out, what: &Value) -> bool {
     let lens = [0usize, 1, s.saturating_sub(1).min(cap), s.min(cap), s.saturating_add(1).min(cap), s.saturating_mul(3).min(cap)];
     let r = lib_call(out, "codec round trip", || what.clone(), || {
         let mut ser = ChunkSerializer::new();
-        let mut bytes = ser.set_max_chunk_size(size, RtmpTimestamp::new(0)).map_err(|e| format!("{:?}", e))?.bytes;
-        let mut sent = vec![Msg { type_id: 1, msid: 0, ts: 0, data: size.to_be_bytes().to_vec() }];
+        // the announcement's own timestamp is an argument too (also past the extended-timestamp
+        // threshold); every third value is reached from a tiny chunk size, so that the announcement
+        // itself is cut into chunks
+        let ts0 = [0u32, 0, 16_777_214, 16_777_215, 16_800_000, 0xFFFF_FFFF][(size % 6) as usize];
+        let mut bytes = Vec::new();
+        let mut sent = Vec::new();
+        if size % 3 == 1 {
+            let tiny = 1 + size % 3;
+            bytes.extend(ser.set_max_chunk_size(tiny, RtmpTimestamp::new(0)).map_err(|e| format!("{:?}", e))?.bytes);
+            sent.push(Msg { type_id: 1, msid: 0, ts: 0, data: tiny.to_be_bytes().to_vec() });
+        }
+        bytes.extend(ser.set_max_chunk_size(size, RtmpTimestamp::new(ts0)).map_err(|e| format!("{:?}", e))?.bytes);
+        sent.push(Msg { type_id: 1, msid: 0, ts: ts0, data: size.to_be_bytes().to_vec() });
         for (i, l) in lens.iter().enumerate() {
             let m = Msg { type_id: 9, msid: 1, ts: 40 * i as u32, data: (0..*l).map(|x| (x * 31 + i) as u8).collect() };
             bytes.extend(ser.serialize(&crate::adapt::to_payload(&m), false, false).map_err(|e| format!("{:?}", e))?.bytes);
             sent.push(m);
         }
         let mut scs = vec![None; sent.len()];
-        scs[0] = Some(size);
+        for (i, m) in sent.iter().enumerate() {
+            if m.type_id == 1 {
+                scs[i] = Some(size);
+            }
+        }
         let got = lib_decode_partitioned(&bytes, &[bytes.len()], &scs).map_err(|e| e.0)?;
         // the announcement may name an equivalent size (the receiver was told the decoded one)
-        if let Some(g) = got.first() {
-            if super::chunkgen::announced_size(g).is_some() {
-                sent[0].data = g.data.clone();
+        for (i, g) in got.iter().enumerate() {
+            if i < sent.len() && sent[i].type_id == 1 && super::chunkgen::announced_size(g).is_some() {
+                sent[i].data = g.data.clone();
             }
         }
         if got != sent {
@@ -324,7 +339,22 @@ fn run(case: &Case, rng: &mut Rng, out: &mut Out) {
                             let mut d = ChunkDeserializer::new();
                             d.set_max_chunk_size(*v as usize).map_err(|e| format!("{:?}", e))?;
                             let mut got = Vec::new();
-                            crate::adapt::lib_feed(&mut d, &bytes, &mut got, |_, _| {})?;
+                            // in pieces, each ending inside a chunk payload where there is one: what
+                            // the deserializer sets aside for the rest of a chunk must be bounded by
+                            // what is missing, not by the chunk size in force
+                            let mark = crate::alloc::mark();
+                            let cuts = [bytes.len() / 3, bytes.len() / 2 + 7, bytes.len() - 1.min(bytes.len())];
+                            let mut pos = 0;
+                            for c in cuts.iter().chain([bytes.len()].iter()) {
+                                if *c > pos {
+                                    crate::adapt::lib_feed(&mut d, &bytes[pos..*c], &mut got, |_, _| {})?;
+                                    pos = *c;
+                                }
+                            }
+                            let peak = crate::alloc::peak_since(mark);
+                            if peak > 64 * bytes.len() + (64 << 20) {
+                                return Err(format!("peak allocation {} bytes while decoding {} bytes at this chunk size", peak, bytes.len()));
+                            }
                             if got != sent {
                                 return Err("decoded messages differ".to_string());
                             }
